@@ -8,10 +8,12 @@ sys.path.insert(0, HERE)
 import glob  # noqa: E402
 import importlib  # noqa: E402
 
-from manifest_data import NOT_APPLICABLE, SOURCE_COMMITS  # noqa: E402
+from manifest_data import CLAIMED, NOT_APPLICABLE, SOURCE_COMMITS  # noqa: E402
 
 CHECKS = {}
 for path in sorted(glob.glob(os.path.join(HERE, 'harness', 'c[0-9][0-9].py'))):
+    if os.path.basename(path)[:-3].upper() not in CLAIMED:
+        continue
     mod = importlib.import_module('harness.' + os.path.basename(path)[:-3])
     if getattr(mod, 'MANIFEST', None) and getattr(mod, 'CLAIMED', True):
         CHECKS[mod.PID] = mod.MANIFEST
